@@ -228,6 +228,12 @@ func fill(e ev, o outcome, in []int, lay bool) {
 	}
 	e["cons"] = cons
 	e["dig"] = digest(o.out)
+	// non-vacuity evidence: did the call rewrite anything (glyph ids or positions)?
+	chg := len(o.out) != len(in)
+	for i := 0; !chg && i < len(in); i++ {
+		chg = o.out[i].G != in[i] || o.out[i].X != 0 || o.out[i].Y != 0
+	}
+	e["chg"] = chg && o.ok
 	e["site"] = o.site
 	e["msg"] = o.msg
 }
